@@ -15,7 +15,7 @@ pub const DEF: PropDef = PropDef {
     run,
     replay,
     level: "exploration",
-    rule: "cases = (cipher x hash x DH suite, backend default / ring-first, read path in {handshake payload of message i of NN/XX/IK/N/KK/XXpsk3, stateful transport, stateless transport}, high-entropy plaintext of 32..65000 bytes (classes 32..4096, 16384, 32767/32768, 40000, 65000), alteration that keeps the key correct: one bit of the tag, one byte of the body, last byte dropped, or (handshake) the associated data only - an earlier unauthenticated payload altered so that h differs while the key does not -, caller's output buffer pre-filled with a pattern and sized exact / +1 / = message length / larger / larger than 65535 / 128 KiB). Oracle: the read returns Err and afterwards NO 8-byte window of the genuine plaintext occurs anywhere in the caller's buffer and no position-aligned run of 6 or more plaintext bytes either (a leaked tail shorter than 8 bytes) (decrypt-then-verify or copy-before-check would put it there; chance coincidence 2^-64 per window). The unaltered message is then read successfully (control). Non-trivial = rejected read with the correct key in place; distinct by full case",
+    rule: "cases = (cipher x hash x DH suite, backend default / ring-first, read path in {handshake payload of message i of NN/XX/IK/N/KK/XXpsk3/NNpsk0 and of the deferred patterns NX1/XX1/X1N/IX1/KX1/X1X1/K1K1/I1K1psk2 (payload not the first ciphertext under its key), stateful transport, stateless transport}, high-entropy plaintext of 32..65000 bytes (classes 32..4096, 16384, 32767/32768, 40000, 65000), alteration that keeps the key correct: one bit of the tag, one byte of the body, last byte dropped, or (handshake) the associated data only - an earlier unauthenticated payload altered so that h differs while the key does not -, caller's output buffer pre-filled with a pattern and sized exact / +1 / = message length / larger / larger than 65535 / 128 KiB). Oracle: the read returns Err and afterwards NO 8-byte window of the genuine plaintext occurs anywhere in the caller's buffer and no position-aligned run of 6 or more plaintext bytes either (a leaked tail shorter than 8 bytes) (decrypt-then-verify or copy-before-check would put it there; chance coincidence 2^-64 per window). The unaltered message is then read successfully (control). Non-trivial = rejected read with the correct key in place; distinct by full case",
     technique: "invariant check on the caller-visible buffer after injected authentication failures (enumeration over paths x backends x buffer sizes + proptest)",
     assumptions: &["only alterations that leave the decryption key correct are generated - with a wrong key no implementation can produce the plaintext"],
     panic_is_violation: false,
@@ -306,6 +306,16 @@ fn paths() -> Vec<Path> {
         Path::Hs("KK".into(), vec![], 1),
         Path::Hs("XX".into(), vec![3], 2),
         Path::Hs("NN".into(), vec![0], 0),
+        // deferred patterns: the payload is NOT the first ciphertext under the current key
+        Path::Hs("NX1".into(), vec![], 1),
+        Path::Hs("XX1".into(), vec![], 1),
+        Path::Hs("XX1".into(), vec![], 2),
+        Path::Hs("X1N".into(), vec![], 2),
+        Path::Hs("IX1".into(), vec![], 1),
+        Path::Hs("KX1".into(), vec![], 1),
+        Path::Hs("X1X1".into(), vec![], 3),
+        Path::Hs("K1K1".into(), vec![], 2),
+        Path::Hs("I1K1".into(), vec![2], 1),
         Path::Stateful,
         Path::Stateless,
     ]
@@ -344,7 +354,7 @@ pub fn run(ctx: &Ctx) {
         || {
             let ps = paths();
             let alter = prop_oneof![3 => any::<u8>().prop_map(Alter::TagBit), 3 => any::<u16>().prop_map(Alter::BodyByte), 1 => Just(Alter::DropLast), 1 => Just(Alter::Ad), 1 => any::<u8>().prop_map(Alter::Extend), 1 => any::<u8>().prop_map(Alter::CutPayloadField)];
-            (0usize..10, 0usize..24, any::<bool>(), prop_oneof![2 => 8usize..32, 6 => 32usize..4097, 2 => 4097usize..65000, 2 => (1usize..16, 0usize..3).prop_map(|(k, d)| k * 4096 - [0usize, 16, 1][d]), 1 => Just(32767usize), 1 => Just(32768usize), 1 => Just(65000usize)], alter, 0u8..8, any::<u64>()).prop_map(move |(p, suite_idx, ring, plen, alter, bufsize, seed)| Case {
+            (0usize..19, 0usize..24, any::<bool>(), prop_oneof![2 => 8usize..32, 6 => 32usize..4097, 2 => 4097usize..65000, 2 => (1usize..16, 0usize..3).prop_map(|(k, d)| k * 4096 - [0usize, 16, 1][d]), 1 => Just(32767usize), 1 => Just(32768usize), 1 => Just(65000usize)], alter, 0u8..8, any::<u64>()).prop_map(move |(p, suite_idx, ring, plen, alter, bufsize, seed)| Case {
                 path: ps[p].clone(),
                 suite_idx,
                 backend: if ring { Backend::RingFirst } else { Backend::Default },
